@@ -138,7 +138,7 @@ def forest_of_sx(m):
 # ---- generator of ordinary trees ----------------------------------------------------------
 CUSTOM_NAMES = ["my-el", "x", "H1", "BR", "Img", "svg:g", "textPath", "a1", "DIV", "foreignObject", "b.c", "q_r"]
 ATTR_NAMES = ["id", "class", "href", "data-x", "title", "onclick", "viewBox", "a:b", "xml:lang", "aria-label",
-              "x_y", "CamelCase", "data-1"]
+              "x-y", "CamelCase", "data-1"]
 
 
 def ord_tree(rng, depth, catalogue):
@@ -265,7 +265,97 @@ def run(ctx: Ctx) -> None:
             agree = False
             ctx.extra.setdefault("tokenizer_vs_htmlparser", []).append(outs[id(c)][1][:200])
     ctx.obligation("spec tokenizer+builder agrees with html.parser on every rendered string", agree)
+    histories(ctx, catalogue)
 
+
+
+def live_expected(t):
+    """element forest straight from the LIVE objects (attribute dict and child list as they are now)"""
+    if isinstance(t, Tag):
+        kids = []
+        for c in t.children:
+            kids.extend(live_expected(c))
+        return [["E", lower_ascii(t.name), [[lower_ascii(k), str(v)] for k, v in t.attrs.items()], kids]]
+    if isinstance(t, str):
+        return [["T", t]]
+    return []
+
+
+def histories(ctx: Ctx, catalogue) -> None:
+    """render, then change attributes / children through the public API (item assignment and
+    deletion, pop, popitem, clear, update, add_class, remove_class, append, insert, child
+    removal), then render again: the second rendering must parse back to the tree AS IT IS NOW
+    (nothing remembered from the first rendering)."""
+    rng = ctx.rng
+    for _ in range(ctx.budget(600, 8000)):
+        d = ord_tree(rng, rng.choice([1, 2, 3]), catalogue)
+        t = build(d)
+        for key in ("class",):   # make remove_class meaningful on some tags
+            if rng.random() < 0.5:
+                t.attrs["class"] = rng.choice(["a", "a b", "b"])
+        first = rng.choice(["html", "str", "render", "none"])
+        if first == "html":
+            safe_call(lambda: t.get_html_string(rng.randrange(0, 3)))
+        elif first == "str":
+            safe_call(lambda: str(t))
+        elif first == "render":
+            safe_call(lambda: t.render())
+        tags_ = []
+        def walk(x):
+            if isinstance(x, Tag):
+                tags_.append(x)
+                for c in x.children:
+                    walk(c)
+        walk(t)
+        log = []
+        for _ in range(rng.choice([1, 2, 3])):
+            u = rng.choice(tags_)
+            keys = list(u.attrs)
+            op = rng.choice(["del", "pop", "popitem", "clear", "set", "update", "add_class", "remove_class",
+                             "append", "insert", "delchild"])
+            log.append(op)
+            try:
+                if op == "del" and keys:
+                    del u.attrs[rng.choice(keys)]
+                elif op == "pop" and keys:
+                    u.attrs.pop(rng.choice(keys))
+                elif op == "popitem" and keys:
+                    u.attrs.popitem()
+                elif op == "clear":
+                    u.attrs.clear()
+                elif op == "set":
+                    u.attrs[rng.choice(["id", "title", "data-z"])] = trees.rand_text(rng, 5)
+                elif op == "update":
+                    u.attrs.update({"data-u": trees.rand_text(rng, 4)})
+                elif op == "add_class":
+                    u.add_class(rng.choice(["a", "b", "c"]))
+                elif op == "remove_class":
+                    u.remove_class(rng.choice(["a", "b"]))
+                elif op == "append":
+                    u.append(trees.rand_text(rng, 4))
+                elif op == "insert":
+                    u.insert(0, Tag("b", "i"))
+                elif op == "delchild" and len(u.children):
+                    del u.children[rng.randrange(0, len(u.children))]
+            except (KeyError, TypeError):
+                pass
+        ctx.count(("history", d, first, log), True, "render, mutate, render again")
+        want = canon(live_expected(t))
+        out = safe_call(lambda: t.get_html_string(rng.randrange(0, 3)))
+        if out[0] != "ok":
+            ctx.violation(f"rendering after {log} raised {out}", [d, first, log], {})
+            continue
+        p = py_parse(out[1])
+        if p[0] != "ok" or p[1] != want:
+            ctx.violation("after rendering once and then changing attributes/children through the public API, the next "
+                          "rendering does not parse back to the tree as it is now", [d, first, log],
+                          {"impl_output": out[1], "expected_forest": want})
+        s2 = safe_call(lambda: str(t))
+        if s2[0] == "ok":
+            p2 = py_parse(s2[1])
+            if p2[0] != "ok" or p2[1] != want:
+                ctx.violation("str(tag) after a mutation does not parse back to the tree as it is now", [d, first, log],
+                              {"impl_output": s2[1], "expected_forest": want})
 
 
 def replay(ctx: Ctx, path: str) -> None:
